@@ -42,7 +42,9 @@ class Sched:
         self.decisions = []  # [thread, tstep, kind, arg]
         self.replay = None
         if replay is not None:
-            self.replay = {(d[0], d[1]): (d[2], d[3]) for d in replay}
+            # a thread can take a scheduling decision at a yield point and then block on a lock at the
+            # same thread-local step: the two are recorded in different slots
+            self.replay = {(d[0], d[1], "b" if d[2] == "blk" else "p"): (d[2], d[3]) for d in replay}
         self.deadlock = None
         self.abandoned = False
         self.budget_exceeded = False
@@ -63,6 +65,9 @@ class Sched:
         self.p_gc = params.get("p_gc", 0.0)
         self.change_points = set(params.get("change_points", []))
         self.force_windows = dict(params.get("force_windows", {}))  # window -> remaining forced switches
+        self.parked = set()  # PCT-style: threads whose priority was dropped below all others
+        self.writes = [0] * n  # per thread: shared-state write lines seen so far
+        self.park_at = {int(k): v for k, v in (params.get("park_at") or {}).items()}
         self.on_point = None  # callable(sched, me, label) for run-specific probes
         # engine S turns lock operations off as yield points: whether a compile lock is taken at all
         # depends on what the worker's kernel cache already holds
@@ -74,7 +79,13 @@ class Sched:
         return getattr(threading.current_thread(), "sim_id", None)
 
     def runnable(self):
-        return [i for i in range(self.n) if self.alive[i] and self.blocked[i] is None]
+        base = [i for i in range(self.n) if self.alive[i] and self.blocked[i] is None]
+        if self.parked:
+            awake = [i for i in base if i not in self.parked]
+            if awake:
+                return awake
+            self.parked.clear()  # everybody else finished or is blocked: the parked threads resume
+        return base
 
     def probe(self, k, n=1):
         self.probes[k] = self.probes.get(k, 0) + n
@@ -95,7 +106,7 @@ class Sched:
             raise Abandoned()
 
     # ------------------------------------------------------------- yield point
-    def point(self, label, hot):
+    def point(self, label, hot, write=False):
         me = self.tid()
         if me is None or me != self.cur or self.abandoned:
             return
@@ -112,12 +123,18 @@ class Sched:
             self._abandon()
             raise Abandoned()
         if self.replay is not None:
-            d = self.replay.get((me, self.tstep[me]))
+            d = self.replay.get((me, self.tstep[me], "p"))
             if d is None:
                 return
             kind, arg = d
             if kind == "gc":
                 self._gc(me, label)
+            elif kind == "park":
+                r = [i for i in self.runnable() if i != me]
+                if r:
+                    self.parked.add(me)
+                    self.probe("parked_at_shared_write")
+                    self._switch_to(me, arg if arg in r else r[0], label)
             elif kind == "sw":
                 r = self.runnable()
                 if arg in r:
@@ -127,7 +144,25 @@ class Sched:
             return
         # ---- generate mode
         decision = None
-        if self.strategy == "coin":
+        if write:
+            self.writes[me] += 1
+        if self.strategy == "pct_writes":
+            # park this thread right before its k-th write to shared state (attribute / global /
+            # subscript store in tensora/compile/* or tensor.py) until all others finish or block
+            if write and self.park_at.get(me) == self.writes[me]:
+                others = [i for i in self.runnable() if i != me]
+                if others:
+                    nxt = self.rng.choice(others)
+                    self.parked.add(me)
+                    self.probe("parked_at_shared_write")
+                    self._record(me, "park", nxt)
+                    self._switch_to(me, nxt, label)
+                return
+            if hot and self.p_gc and self.rng.random() < self.p_gc:
+                decision = ("gc", None)
+            elif self.rng.random() < self.p_cold:
+                decision = ("sw", self.rng.choice(self.runnable()))
+        elif self.strategy == "coin":
             r = self.rng.random()
             if hot and r < self.p_gc:
                 decision = ("gc", None)
@@ -179,6 +214,7 @@ class Sched:
     def block_on(self, lock):
         me = self.tid()
         self.blocked[me] = lock
+        self.tstep[me] += 1  # every block is a step of its own (a thread can block repeatedly)
         self.probe("lock_contended")
         r = self.runnable()
         if not r:
@@ -188,8 +224,8 @@ class Sched:
             self._abandon()
             raise Abandoned()
         if self.replay is not None:
-            d = self.replay.get((me, self.tstep[me]))
-            nxt = d[1] if d is not None and d[0] == "blk" and d[1] in r else r[0]
+            d = self.replay.get((me, self.tstep[me], "b"))
+            nxt = d[1] if d is not None and d[1] in r else r[0]
         else:
             nxt = self.rng.choice(r)
             self._record(me, "blk", nxt)
@@ -204,7 +240,7 @@ class Sched:
     # ------------------------------------------------------------ life cycle
     def start(self):
         if self.replay is not None:
-            d = self.replay.get((-1, 0))
+            d = self.replay.get((-1, 0, "p"))
             first = d[1] if d is not None else 0
         else:
             first = self.rng.randrange(self.n)
@@ -221,7 +257,7 @@ class Sched:
         r = self.runnable()
         if r:
             if self.replay is not None:
-                d = self.replay.get((me, -1))
+                d = self.replay.get((me, -1, "p"))
                 nxt = d[1] if d is not None and d[1] in r else r[0]
             else:
                 nxt = self.rng.choice(r)
